@@ -731,6 +731,6 @@ impl Family for PeerLoss {
         out.into_iter().map(|s| serde_json::to_value(s).unwrap()).collect()
     }
     fn watchdog_ms(&self) -> u64 {
-        60_000
+        40_000
     }
 }
